@@ -59,6 +59,7 @@ pub fn properties_of(v: &Violation) -> Vec<&'static str> {
             }
         }
         "I12" => vec!["C06"],
+        "H1" | "H2" if v.key.ends_with(":order") => vec!["C12"],
         "H1" | "H2" => vec!["C16"],
         "H3" => vec!["C16", "C06"],
         _ => vec![],
